@@ -143,6 +143,8 @@ func runC06(c *core.Ctx) {
 		zones  []string
 		label  string
 		refB   *gen.Date // for keywords: the explicit-date reference
+		// todayText: --today as given (default: today in the layout)
+		todayText string
 	}
 	var items []item
 	layoutDefault := "2006/01/02"
@@ -249,6 +251,40 @@ func runC06(c *core.Ctx) {
 		}
 	}
 	_ = kwNames
+	// (2b) keywords when the layout carries a zone offset: --today, the headings and the explicit dates are all
+	// written with the same offset, so "today" is that calendar day in every process zone
+	for zi, suffix := range []string{" +0200", " -0500", " +0530"} {
+		T := Ts[zi]
+		var days []gen.Date
+		for _, off := range []int{-31, -30, -8, -7, -2, -1, 0, 1} {
+			days = append(days, T.AddDays(off))
+		}
+		r := c.Rng("kwz", zi)
+		log := c06Log(r, days, 10)
+		for di := range log {
+			log[di].Head = log[di].Date.Format("2006/01/02") + suffix
+		}
+		opts := []string{"", "today", "yesterday", "last7", "last30"}
+		for _, bo := range opts {
+			for _, eo := range opts {
+				if bo == "" && eo == "" {
+					continue
+				}
+				it := item{log: log, layout: "2006/01/02 -0700", today: T, todayText: T.Format("2006/01/02") + suffix, cmd: c06Cmds[r.Intn(len(c06Cmds))], label: "keyword, zoned layout", zones: []string{kwZones[r.Intn(len(kwZones))]}}
+				set := func(o string) (*gen.Date, *string) {
+					if o == "" {
+						return nil, nil
+					}
+					d := T.AddDays(kws[o])
+					s := o
+					return &d, &s
+				}
+				it.b, it.bs = set(bo)
+				it.e, it.es = set(eo)
+				items = append(items, it)
+			}
+		}
+	}
 
 	// (3) date layouts
 	// incl. layouts that look like the default one with the fields in another order (a value such as 2021/03/03
@@ -384,7 +420,11 @@ func runC06(c *core.Ctx) {
 			return
 		}
 		pre := func(logf string) []string {
-			a := []string{"--no-color", "-d", "food.yaml", "-l", logf, "--today", it.today.Format(it.layout)}
+			tt := it.today.Format(it.layout)
+			if it.todayText != "" {
+				tt = it.todayText
+			}
+			a := []string{"--no-color", "-d", "food.yaml", "-l", logf, "--today", tt}
 			if it.layout != "2006/01/02" {
 				a = append(a, "--date-format", it.layout)
 			}
